@@ -373,6 +373,10 @@ func runMerge(cfg runCfg, pid string) error {
 		}
 		obsMerged := "None"
 		if es0.MergedSchema != nil {
+			// the derived relations of the published schema must be the ones its own definitions imply: what a type implements
+			// (its interfaces and the unions it is a member of) and the possible types of every abstract type
+			okRel, relDetail := derivedRelationsOK(es0.MergedSchema)
+			add("prop.c07.derived_relations_match_definitions", okRel, relDetail)
 			obsMerged = "(Some " + cSSchema(es0.MergedSchema) + ")"
 		}
 		var locs, bnds, bqs []string
@@ -430,4 +434,69 @@ func runMerge(cfg runCfg, pid string) error {
 		return fmt.Errorf("only %d of %d generated federations were accepted (features: %v): conforming service schemas are being rejected", len(w.cases), cfg.n, sum.Features)
 	}
 	return nil
+}
+
+// derivedRelationsOK recomputes Schema.Implements and Schema.PossibleTypes from the type definitions.
+func derivedRelationsOK(m *ast.Schema) (bool, string) {
+	wantImpl := map[string]map[string]bool{}
+	wantPoss := map[string]map[string]bool{}
+	addTo := func(mm map[string]map[string]bool, k, v string) {
+		if mm[k] == nil {
+			mm[k] = map[string]bool{}
+		}
+		mm[k][v] = true
+	}
+	for _, tn := range sortedKeys(m.Types) {
+		t := m.Types[tn]
+		if t == nil || strings.HasPrefix(tn, "__") {
+			continue
+		}
+		switch t.Kind {
+		case ast.Object:
+			addTo(wantPoss, tn, tn)
+			for _, i := range t.Interfaces {
+				addTo(wantImpl, tn, i)
+				addTo(wantPoss, i, tn)
+			}
+		case ast.Union:
+			for _, mem := range t.Types {
+				addTo(wantImpl, mem, tn)
+				addTo(wantPoss, tn, mem)
+			}
+		}
+	}
+	names := func(ds []*ast.Definition) map[string]bool {
+		out := map[string]bool{}
+		for _, d := range ds {
+			out[d.Name] = true
+		}
+		return out
+	}
+	same := func(a, b map[string]bool) bool {
+		if len(a) != len(b) {
+			return false
+		}
+		for k := range a {
+			if !b[k] {
+				return false
+			}
+		}
+		return true
+	}
+	for _, tn := range sortedKeys(m.Types) {
+		if strings.HasPrefix(tn, "__") || m.Types[tn] == nil {
+			continue
+		}
+		if m.Types[tn].Kind == ast.Object {
+			if got := names(m.Implements[tn]); !same(got, wantImpl[tn]) {
+				return false, fmt.Sprintf("Implements[%s] = %v, the definitions imply %v", tn, sortedKeys(got), sortedKeys(wantImpl[tn]))
+			}
+		}
+		if m.Types[tn].IsAbstractType() {
+			if got := names(m.PossibleTypes[tn]); !same(got, wantPoss[tn]) {
+				return false, fmt.Sprintf("PossibleTypes[%s] = %v, the definitions imply %v", tn, sortedKeys(got), sortedKeys(wantPoss[tn]))
+			}
+		}
+	}
+	return true, ""
 }
